@@ -98,7 +98,8 @@ def oracle_c03(tables, seed, tier, deep):
         for j in range(3):
             c = cfgs[(i * 3 + j) % len(cfgs)]
             if c.re is None and cs.fields and j == 2:
-                c = Cfg(re="^(" + cs.fields[0].split(".")[0] + ")$")
+                f0 = TOK.search(cs.fields[0])
+                c = Cfg(re="^(" + (f0.group(0) if f0 else "zqnone") + ")$")
             pairs.append((cs, c))
     res = run_lines(pairs)
     viol, distinct = [], set()
@@ -135,9 +136,27 @@ def oracle_c03(tables, seed, tier, deep):
 SENSITIVE_ROLES = ("S", "E", "D", "O", "X")
 
 
+def corpus_cases():
+    """minimised past failures and directed witnesses, run first by the planted-token oracles"""
+    out = []
+    mlt = Obj([("c", "COMMAND"), ("msg", "Slow query"), ("attr", Obj([("ns", "d.c"), ("command", Obj([("aggregate", "c"), ("pipeline", [Obj([("$search", Obj([("moreLikeThis", Obj([("like", Obj([
+        ("numBuckets", "zq900001xs"), ("text", Obj([("score", "zq900002xs")])), ("title", "zq900003xs")]))]))]))])]), ("$db", "d")]))]))])
+    out.append(Case(mlt, {"zq900001xs": "S", "zq900002xs": "S", "zq900003xs": "S"}, [], "d.c", "corpus"))
+    bad = Obj([("c", "COMMAND"), ("msg", "Slow query"), ("attr", Obj([("ns", "d.c"), ("originatingCommand", None), ("cmd", "zqnotadoc"), ("command", Obj([("find", "c"), ("filter", Obj([("a", "zq900004xs")])), ("$db", "d")]))]))])
+    out.append(Case(bad, {"zq900004xs": "S"}, [], "d.c", "corpus"))
+    return out
+
+
+def leak_site(path):
+    keys = [p for p in path if not isinstance(p, int)]
+    if "moreLikeThis" in keys and keys[keys.index("moreLikeThis") + 1: keys.index("moreLikeThis") + 2] == ["like"]:
+        return "search:moreLikeThis.like:field-named-like-a-search-option"
+    return site_of(path)
+
+
 def oracle_c01(tables, seed, tier, deep):
     n = 2500 if (tier == "thorough" or deep) else 250
-    cases = grammar_cases(seed, n)
+    cases = corpus_cases() + grammar_cases(seed, n)
     cfgs = FULL_CFGS + [Cfg(eager=("",), n=True)]
     pairs = []
     for i, cs in enumerate(cases):
@@ -163,7 +182,8 @@ def oracle_c01(tables, seed, tier, deep):
                 tl = tl or token_leaves(cs.tree)
                 where = tl.get(tok) or [(p, l) for p, l in leaves(cs.tree) if isinstance(l, (str, Num)) and tok in str(l)]
                 path = where[0][0] if where else ()
-                viol.append({"site": "leak:" + site_of(path), "detail": "literal %r (role %s) survives in the output line" % (tok, role), "token": tok,
+                site = "leak:" + leak_site(path)
+                viol.append({"site": site, "detail": "literal %r (role %s) at %s survives in the output line" % (tok, role, "/".join(str(x) for x in path)), "token": tok,
                              "cfg": c.s(), "cli_flags": c.cli(), "input": cs.text, "output": t})
         if c.i:
             rem = get_path(cs.tree, ("attr", "remote"))
@@ -219,7 +239,7 @@ def reassign(tree, roles, rng, c):
 
 def oracle_c02(tables, seed, tier, deep):
     n = 1500 if (tier == "thorough" or deep) else 200
-    cases = grammar_cases(seed ^ 0x2, n)
+    cases = corpus_cases() + grammar_cases(seed ^ 0x2, n)
     cfgs = [Cfg(), Cfg(n=True), Cfg(b=True), Cfg(n=True, b=True, i=True, w=True), Cfg(repl='X"y\\z é'), Cfg(repl=""), Cfg(eager=("",)), Cfg(eager=("",), n=True, b=True)]
     rng = SplitMix(seed ^ 0xC02)
     pairs, twins = [], []
@@ -238,7 +258,14 @@ def oracle_c02(tables, seed, tier, deep):
         if a != b:
             ta, tb = out_text(a) or a, out_text(b) or b
             k = next((j for j in range(min(len(ta), len(tb))) if ta[j] != tb[j]), min(len(ta), len(tb)))
-            viol.append({"site": "interference", "detail": "outputs differ at byte %d: %r vs %r" % (k, ta[max(0, k - 60):k + 60], tb[max(0, k - 60):k + 60]),
+            site = "interference"
+            try:
+                dd = leaf_diffs(parse_json(ta), parse_json(tb))
+                if dd:
+                    site = "interference:" + leak_site(dd[0][0])
+            except Exception:
+                pass
+            viol.append({"site": site, "detail": "outputs differ at byte %d: %r vs %r" % (k, ta[max(0, k - 60):k + 60], tb[max(0, k - 60):k + 60]),
                          "cfg": c.s(), "cli_flags": c.cli(), "input": cs.text, "input2": cs2.text})
     return result(viol, 2 * len(pairs), differing, "pairs (L, L') of grammar lines, L' = class-preserving re-assignment of every sensitive literal (length x1000, JSON metacharacters, equal/unequal); distinct_nontrivial = pairs whose inputs really differ",
                   {}, [{"L": pairs[0][0].text[:300], "L2": twins[0][0].text[:300]}] if pairs else [])
@@ -735,6 +762,10 @@ def mixed_lines(rng, n):
             out.append(to_json(other_line(rng)).encode())
         elif k == 7:
             out.append(rng.choice([b"", b" ", b"\t  "]))
+            if rng.chance(1, 2):
+                # a JSON object with white space around it is still a JSON object line
+                l = to_json(G(rng.fork()).line()).encode()
+                out.append(rng.choice([b"  " + l, l + b" ", b"\t" + l + b"\t ", l + b"\r"]))
         elif k == 8:
             out.append(rng.choice([b"not json at all", b"2024-05-01T12:00:00.000+0000 I NETWORK [conn] legacy", b"[1,2,3]", b'{"unterminated":', b'"str"', b"{} trailing"]))
         else:
@@ -813,6 +844,9 @@ def oracle_c06(tables, seed, tier, deep):
                         of = os.path.join(work, "out_%d_%s_%s_%d" % (it, ch_in, ch_out, rep))
                         if ch_out == "outfile":
                             args += ["-o", of]
+                            if rep == 1:
+                                # the output path already holds a longer file from an earlier run
+                                open(of, "wb").write(b'{"stale":"line from an earlier, longer run"}\n' * (200 + len(exp) // 20))
                         rc, so, se = run_cli(args, stdin=stdin, cwd=work)
                         n_in += 1
                         o = open(of, "rb").read() if ch_out == "outfile" else so
@@ -960,9 +994,10 @@ HARNESS_KEY = bytes([(i * 7 + 3) % 256 for i in range(64)])
 
 def nasty_strings(rng, n):
     base = ["", " ", "a", "REDACTED", "QUJD", "AAAA", "{\"a\":1}", "null", "x" * 8191, "é" * 700, "\U0001F600\U0001F4A9", "中文字符", "\x00\x01\x1f\x7f", "line1\nline2\r\n\ttab", "\"quoted\" \\back\\", "<script>&amp;</script>",
-            "\u2028\u2029", "a@b.co", "$notfirst"[1:] + "$x", "A" * 64, "=" * 5, "-----BEGIN", "\ufffd", "\ud7ff\ue000", "0", "-1e5"]
+            "\u2028\u2029", "a@b.co", "$notfirst"[1:] + "$x", "A" * 64, "=" * 5, "-----BEGIN", "\ufffd", "\ud7ff\ue000", "0", "-1e5",
+            "discount 100% today", "%s %d %v %!d(MISSING)", "%", "%%", "100%25", "a%20b", "Alice@Example.COM", "alice@example.com"]
     out = list(base)
-    alph = "abcXYZ019 _-+/=\"\\{}[]:,é中\U0001F600\x07"
+    alph = "abcXYZ019 _-+/=\"\\{}[]:,é中\U0001F600\x07%"
     while len(out) < n:
         out.append("".join(rng.choice(alph) for _ in range(rng.choice([1, 2, 5, 17, 64, 300]))))
     return out[:n]
@@ -1006,6 +1041,9 @@ def oracle_c09(tables, seed, tier, deep):
             open(key2, "w").write(base64.b64encode(bytes(rng.below(256) for _ in range(64))).decode())
             for ct, s in list(zip(cts, strs))[: (40 if big else 8)]:
                 raw = base64.b64decode(ct)
+                if len(raw) < 16:
+                    viol.append({"site": "ciphertext:too-short", "detail": "ciphertext of %r is %d bytes: it cannot carry the 16-byte SIV tag, so nothing binds it to the key" % (s[:40], len(raw)), "input": s[:100]})
+                    continue
                 muts = []
                 for _ in range(12 if big else 5):
                     b = bytearray(raw)
@@ -1482,9 +1520,11 @@ def oracle_c14(tables, seed, tier, deep):
         comps = []
         for f in pick:
             comps += [f] if rng.chance(1, 2) else [rng.choice(f.split("."))]
+        # keep the expression inside the common subset of RE2 and Python syntax: names reduced to their token part
+        comps = [TOK.search(x).group(0) if TOK.search(x) else "zqnone" for x in comps]
         k = i % 5
         if k == 0:
-            rx = "^(" + "|".join(pyre.escape(x).replace("\\.", "\\.") for x in comps) + ")$"
+            rx = "^(" + "|".join(comps) + ")$"
         elif k == 1:
             rx = "|".join(pyre.escape(x) for x in comps)            # unanchored: matches dotted keys containing the name
         elif k == 2:
@@ -1510,7 +1550,7 @@ def oracle_c14(tables, seed, tier, deep):
         except Exception as e:
             viol.append({"site": "sel:badjson", "detail": str(e), "cfg": c.s(), "input": cs.text, "output": t})
             continue
-        R = pyre.compile(rx)
+        R = go_re(rx)
         for path, names, search, sibs, leaf in zone_leaves(cs.tree):
             got = get_path(o, path)
             matched = any(R.search(nm) for nm in names) or any(R.search(x) for x in sibs)
@@ -2091,3 +2131,145 @@ def oracle_c20(tables, seed, tier, deep):
 ORACLES["C16"] = oracle_c16
 ORACLES["C17"] = oracle_c17
 ORACLES["C20"] = oracle_c20
+
+
+# ------------------------------------------------------------------------------------------- CLI flag wiring (shared)
+
+def cli_wiring(seed, n_cases, want_enc=None):
+    """the real CLI with real flags on a file of generated lines vs. the in-process redactor configured through the setters with the
+    same values: byte comparison of the outputs.  Catches a flag that does not reach its setter under some flag combination."""
+    import tempfile, shutil
+    rng = SplitMix(seed ^ 0xC11F)
+    viol = []
+    n = 0
+    work = tempfile.mkdtemp(prefix="verif_wire_")
+    try:
+        cases = grammar_cases(seed ^ 0x77, n_cases)
+        lines = [cs.text.encode("utf-8") for cs in cases]
+        nss = [get_path(cs.tree, ("attr", "ns")) for cs in cases]
+        nss = [x for x in nss if isinstance(x, str)]
+        combos = []
+        for i in range(10 if want_enc is None else 6):
+            c = Cfg(repl=rng.choice(["REDACTED", "zz", "X y", "REDACTED", "r_1"]), n=rng.chance(1, 2), b=rng.chance(1, 2), i=rng.chance(1, 2), w=rng.chance(1, 2))
+            mode = rng.below(3)
+            if mode == 1 and nss:
+                c.eager = (rng.choice(nss).split(".")[0],)
+            elif mode == 2:
+                c.re = "^(zq3xf|zq4xf|name)$"
+            enc = (i % 2 == 1) if want_enc is None else want_enc
+            combos.append((c, enc))
+        inp = os.path.join(work, "in.log")
+        open(inp, "wb").write(b"\n".join(lines) + b"\n")
+        key = os.path.join(work, "harness.key")
+        open(key, "wb").write(base64.b64encode(HARNESS_KEY))
+        for ci, (c, enc) in enumerate(combos):
+            outp = os.path.join(work, "out%d.log" % ci)
+            args = ["redact", inp, "-o", outp] + c.cli() + (["--encrypt", "--encryptionKeyFile", key] if enc else [])
+            rc, so, se = run_cli(args, cwd=work)
+            n += 1
+            c2 = Cfg(c.repl, c.n, c.b, c.i, c.w, c.eager, c.re, 3 if enc else 0)
+            exp = b"".join(expected_stream(lines, c2))
+            got = open(outp, "rb").read() if os.path.exists(outp) else b""
+            if rc != 0 or got != exp:
+                k = next((j for j in range(min(len(got), len(exp))) if got[j] != exp[j]), min(len(got), len(exp)))
+                viol.append({"site": "cli-wiring:" + "+".join(a for a in args[4:] if a.startswith("-")), "detail": "exit %d; CLI output differs from the in-process result with the same settings at byte %d: %r vs %r" % (rc, k, got[max(0, k - 50):k + 50], exp[max(0, k - 50):k + 50]),
+                             "cfg": c2.s(), "cli_flags": args[1:], "input": lines[0].decode("utf-8")[:300]})
+    finally:
+        shutil.rmtree(work, ignore_errors=True)
+    return viol, n
+
+
+def with_wiring(fn, want_enc=None):
+    def wrapped(tables, seed, tier, deep):
+        r = fn(tables, seed, tier, deep)
+        v, n = cli_wiring(seed, 40 if (tier == "thorough" or deep) else 12, want_enc)
+        if v:
+            r["violations"] = result(r["violations"] + v, 0, 0, "", {}, [])["violations"]
+            r["stats"]["summary"]["violating_sites"] = len(r["violations"])
+        r["stats"]["evaluations"] += n
+        r["stats"]["summary"]["evaluations"] = r["stats"]["evaluations"]
+        r["stats"]["rule"] += "; plus the real CLI with random flag combinations (replacement, numbers, booleans, IPs, namespaces, field names / regexp, encrypt) byte-compared with the in-process redactor configured with the same values"
+        return r
+    return wrapped
+
+
+ORACLES["C01"] = with_wiring(oracle_c01)
+ORACLES["C05"] = with_wiring(oracle_c05, want_enc=False)
+ORACLES["C10"] = with_wiring(oracle_c10, want_enc=True)
+
+
+# ------------------------------------------------------------------------------------------- C01: witnesses synthesised from every table entry
+
+WL_AGG_KEEP = {
+    ("$binary", "subType"), ("$limit",), ("$skip",), ("$sample",), ("$densify", "range", "step"), ("$densify", "range", "units"), ("$lookup", "as"), ("$merge", "whenNotMatched"),
+    ("$out", "timeseries"), ("$planCacheStats",), ("$querySettings",), ("$queryStats",), ("$shardedDataDistribution",),
+    ("$bucket", "groupBy"), ("$count",), ("$densify", "field"), ("$fill", "partitionByFields"), ("$fill", "sortBy"), ("$geoNear", "distanceField"),
+    ("$graphLookup", "connectFromField"), ("$graphLookup", "connectToField"), ("$graphLookup", "depthField"), ("$replaceRoot", "newRoot"), ("$setWindowFields", "sortBy"),
+    ("$sortByCount",), ("$unset",), ("$unwind",),
+    ("$graphLookup", "from"), ("$lookup", "from"), ("$merge", "into"), ("$out", "db"), ("$out", "coll"), ("$unionWith", "coll"),
+    ("$facet",), ("$lookup", "pipeline"), ("$merge", "whenMatched"), ("$unionWith", "pipeline"),
+}
+WL_SEARCH_NAMES = {"score", "fuzzy", "tokenOrder", "minimumShouldMatch", "relation", "type", "slop", "allowAnalyzedField", "spanToReturn", "inOrder", "matchCriteria", "numBuckets",
+                   "index", "maxCharsToExamine", "maxNumPassages", "concurrent", "threshold", "scoreDetails", "returnStoredSource", "exact", "limit", "numCandidates",
+                   "path", "defaultPath", "sort", "combination"}
+
+
+def spec_may_keep(tname, path):
+    """independent copy of Spec/Whitelist.lean: may a value below this table path be kept verbatim?"""
+    if tname in ("agg", "core"):
+        return any(tuple(path[:k]) in WL_AGG_KEEP for k in range(1, len(path) + 1))
+    return any(p in WL_SEARCH_NAMES for p in path) or tuple(path) == ("$rankFusion", "input", "pipelines")
+
+
+def table_witness_cases(tables):
+    """for every entry of every regenerated table that the spec does NOT allow to keep values: lines that plant a literal there"""
+    out = []
+    srcs = [("agg", tables["AggregationOperators"]), ("sagg", tables["SearchAggregationOperators"]), ("core", tables["CoreOperators"]), ("search", tables["SearchOperators"])]
+    n = 0
+    for tname, tb in srcs:
+        for path, leaf in table_paths(tb):
+            if spec_may_keep(tname, path):
+                continue
+            for shape in range(4):
+                n += 1
+                tok = "zq%dxs" % (900000 + n)
+                val = [tok, [tok], Obj([("k", tok)]), [Obj([("k", tok)]), "zqpad"]][shape]
+                for kind_, tree in wrap_positions(tname, path, val):
+                    if kind_ == "stage":
+                        cmd = Obj([("aggregate", "c"), ("pipeline", [tree]), ("$db", "d")])
+                    else:
+                        cmd = Obj([("find", "c"), ("filter", tree), ("$db", "d")])
+                    line = Obj([("c", "COMMAND"), ("msg", "Slow query"), ("attr", Obj([("ns", "d.c"), ("command", cmd)]))])
+                    out.append((tok, tname, path, line))
+    return out
+
+
+def oracle_c01_tables(tables, seed, tier, deep):
+    cases = table_witness_cases(tables)
+    cfgs = [Cfg(), Cfg(n=True, b=True, w=True)]
+    viol = []
+    for c in cfgs:
+        res = go_exec([(str(i), ["line", c.s(), hx(to_json(line))]) for i, (tok, tname, path, line) in enumerate(cases)])
+        for i, (tok, tname, path, line) in enumerate(cases):
+            t = out_text(res.get(str(i), ""))
+            if t is None or tok in t:
+                viol.append({"site": "leak:table:%s:%s" % (tname, "/".join(path)), "detail": "literal %r planted below table entry %s:%s (not an operational parameter per Spec/Whitelist) %s" % (tok, tname, "/".join(path), "survives" if t else "no output line"),
+                             "token": tok, "cfg": c.s(), "cli_flags": c.cli(), "input": to_json(line), "output": t})
+    return viol, len(cases) * len(cfgs)
+
+
+def with_tables(fn):
+    def wrapped(tables, seed, tier, deep):
+        r = fn(tables, seed, tier, deep)
+        v, n = oracle_c01_tables(tables, seed, tier, deep)
+        if v:
+            r["violations"] = result(r["violations"] + v, 0, 0, "", {}, [])["violations"]
+            r["stats"]["summary"]["violating_sites"] = len(r["violations"])
+        r["stats"]["evaluations"] += n
+        r["stats"]["summary"]["evaluations"] = r["stats"]["evaluations"]
+        r["stats"]["rule"] += "; plus a literal planted (as string, [string], {k: string}, [{k: string}]) below EVERY entry of the regenerated tables that the whitelist does not allow to keep values, at every wrapping position"
+        return r
+    return wrapped
+
+
+ORACLES["C01"] = with_tables(ORACLES["C01"])
